@@ -783,6 +783,42 @@ def init_layout(ctx):
     return tl, rline, wline
 
 
+# OnionMessage + onion_message::packet::Packet (Model/MsgCustom.lean decodeOnionMsg / encodeOnionMsg); the overhead constant is extracted
+PACKET = 'lightning/src/onion_message/packet.rs'
+ONION_FRAGMENTS = {
+    (MSGS, 'LengthReadable', 'OnionMessage'):
+        'fn read_from_fixed_length_buffer<R: LengthLimitedRead>(r: &mut R) -> Result<Self, DecodeError> { let blinding_point: PublicKey = Readable::read(r)?; let len: u16 = Readable::read(r)?; let mut packet_reader = FixedLengthReader::new(r, len as u64); let onion_routing_packet: onion_message::packet::Packet = <onion_message::packet::Packet as LengthReadable>::read_from_fixed_length_buffer( &mut packet_reader, )?; Ok(Self { blinding_point, onion_routing_packet }) }',
+    (MSGS, 'Writeable', 'OnionMessage'):
+        'fn write<W: Writer>(&self, w: &mut W) -> Result<(), io::Error> { self.blinding_point.write(w)?; let onion_packet_len = self.onion_routing_packet.serialized_length(); (onion_packet_len as u16).write(w)?; self.onion_routing_packet.write(w)?; Ok(()) }',
+    (PACKET, 'LengthReadable', 'Packet'):
+        'fn read_from_fixed_length_buffer<R: LengthLimitedRead>(r: &mut R) -> Result<Self, DecodeError> { const READ_BUFFER_SIZE: usize = 4096; let hop_data_len = r.remaining_bytes().saturating_sub(«overhead») as usize; let version = Readable::read(r)?; let public_key = Readable::read(r)?; let mut hop_data = Vec::new(); let mut read_idx = 0; while read_idx < hop_data_len { let mut read_buffer = [0; READ_BUFFER_SIZE]; let read_amt = cmp::min(hop_data_len - read_idx, READ_BUFFER_SIZE); r.read_exact(&mut read_buffer[..read_amt])?; hop_data.extend_from_slice(&read_buffer[..read_amt]); read_idx += read_amt; } let hmac = Readable::read(r)?; Ok(Packet { version, public_key, hop_data, hmac }) }',
+    (PACKET, 'Writeable', 'Packet'):
+        'fn write<W: Writer>(&self, w: &mut W) -> Result<(), io::Error> { self.version.write(w)?; self.public_key.write(w)?; w.write_all(&self.hop_data)?; self.hmac.write(w)?; Ok(()) }',
+}
+
+
+def onion_message(ctx):
+    pk = read(PACKET)
+    overhead = None
+    for (path, trait, name), want in ONION_FRAGMENTS.items():
+        src = ctx.src[MSGS] if path == MSGS else pk
+        body, _ = impl_body(src, r'impl %s for %s\s*\{' % (trait, name), 'impl %s for %s' % (trait, name))
+        g = cut(' '.join(body.split()), esc(want), 'impl %s for %s (%s)' % (trait, name, path))
+        if 'overhead' in g:
+            overhead = ctx.eval(g['overhead'])
+    sm = re.search(r'pub struct Packet\s*\{', pk)
+    body = re.sub(r'#\[[^\]]*\]', '', pk[sm.end():match_close(pk, sm.end() - 1, '{', '}')])
+    fields = []
+    for part in split_top(body):
+        mm = re.fullmatch(r'(?:pub(?:\([^)]*\))?\s+)?(\w+)\s*:\s*(.+)', part, re.S)
+        if not mm:
+            raise TranslateError('onion_message::packet::Packet: field %r' % part)
+        fields.append((mm.group(1), ' '.join(mm.group(2).split())))
+    if fields != [('version', 'u8'), ('public_key', 'PublicKey'), ('hop_data', 'Vec<u8>'), ('hmac', '[u8; 32]')]:
+        raise TranslateError('onion_message::packet::Packet fields changed: %s' % fields)
+    return overhead
+
+
 def check_custom_fragments(ctx, ser):
     for (path, trait, name), want in CUSTOM_FRAGMENTS.items():
         src = ctx.src[MSGS] if path == MSGS else ser
@@ -870,6 +906,9 @@ def custom_codecs(ctx):
     L.append('def initPinned : HandLayout := ⟨"Init", ["global_features", "features"], [%s, %s], [%s], false, none⟩' % (
         lean_ty(ctx.ty('InitFeatures')), lean_ty(ctx.ty('InitFeatures')), ', '.join('(%d, %s)' % (t, lean_ty(ty)) for t, _, ty in tl)))
     L.append('def initTlvNamesPinned : List String := [%s]' % ', '.join('"%s"' % f for _, f, _ in tl))
+    L.append('')
+    L.append('/-- onion_message/packet.rs `impl LengthReadable for Packet`: `hop_data_len = remaining_bytes().saturating_sub(N)` -/')
+    L.append('def onionPacketOverheadPinned : Nat := %d' % onion_message(ctx))
     L.append('')
     return L, kinds
 
